@@ -872,7 +872,7 @@ def _one_fdepsd(sh, rep, cp, cc, fd, np, r, o, params):
     if np.any(pk[:, 0] > srsv) or np.any(pk[:, 0] <= 0):
         rep("fde-amp-le-srs", case, {"amax": pk[:, 0], "srs": srsv}, tags)
     sh.count("mon:fde-g2-ge-g1")
-    if np.any(psd[:, 1] < psd[:, 0]) or np.any(pk[:, 1] < pk[:, 0]):
+    if not (np.all(psd[:, 1] >= psd[:, 0]) and np.all(pk[:, 1] >= pk[:, 0])):
         rep("fde-g2-ge-g1", case, {"G1": psd[:, 0], "G2": psd[:, 1]}, tags)
     if np.any(psd[:, 1] > psd[:, 0] * (1 + 1e-9)):
         sh.count("cell:g2-above-g1")
@@ -1066,7 +1066,17 @@ def _fde_injected(sh, rep, cp, cc, fd, np, params):
         if q % 2:
             amp[: m // 2] *= float(r.uniform(0.3, 1.0))        # some off-grid cycles
         count = np.concatenate([r.choice([0.5, 1.0], m), [1.0, 0.5]])
-        table = pd.DataFrame({"amp": amp, "mean": np.zeros(m + 2), "count": count})
+        few = None
+        if q % 3 == 2:
+            # response with only a handful of reversal points (a short shock seen by a
+            # low-frequency oscillator): total cycle counts of 0.5, 1.0, 1.5
+            few = int(r.integers(0, 6))
+            amp = amax * np.array([[1.0], [1.0, 1.0], [1.0, 0.5], [1.0],
+                                   [1.0, 0.75, 0.4], [0.6, 1.0]][few])
+            count = np.array([[1.0], [0.5, 0.5], [0.5, 0.5], [0.5],
+                              [0.5, 0.5, 0.5], [1.0, 0.5]][few])
+            sh.count("cell:injected-few-cycles:total=%g" % count.sum())
+        table = pd.DataFrame({"amp": amp, "mean": np.zeros(amp.size), "count": count})
         sr = 256.0
         sig = r.standard_normal(300)
         freq = np.array([12.0, 20.0])
@@ -1087,6 +1097,32 @@ def _fde_injected(sh, rep, cp, cc, fd, np, params):
         finally:
             fd.cyclecount = real
         ba, cnt, bc = fde.binamps.values, fde.count.values, fde.bincount.values
+        # NaN nowhere; +inf only in the G2 columns and only where the documented G2 line
+        # is horizontal (a bin at >= Amax/3 holds every cycle, so the line through
+        # (0, ln total) and that bin never reaches ln count = 0): G2 >= G1 and the
+        # amplitude-squared scaling still hold for it, so the property does not exclude it
+        sh.count("mon:fde-finite")
+        P, K = fde.psd.values.astype(float), fde.peakamp.values.astype(float)
+        horiz = np.array([bool(np.any((ba[j] >= K[j, 0] / 3) & (cnt[j] == cnt[j, 0])
+                                      & (cnt[j, 0] != 1.0))) for j in range(freq.size)])
+        okinf = np.zeros(P.shape, bool)
+        okinf[:, 1] = horiz
+        bad_ = False
+        for a in (P, K):
+            if np.any(np.isnan(a)) or np.any(np.isinf(a) & ~(okinf & (a > 0))):
+                bad_ = True
+        for a in (fde.di_sig, fde.di_test, fde.var_test):
+            if not np.all(np.isfinite(np.asarray(a.values, float))):
+                bad_ = True
+        if bad_:
+            rep("fde-finite", case, {"psd": P, "peakamp": K, "horizontal_g2_line": horiz},
+                tags)
+            continue
+        if np.any(np.isinf(P[:, 1])):
+            sh.count("cell:injected-g2-infinite-horizontal-line")
+        sh.count("mon:fde-g2-ge-g1")
+        if not (np.all(P[:, 1] >= P[:, 0]) and np.all(K[:, 1] >= K[:, 0])):
+            rep("fde-g2-ge-g1", case, {"G1": P[:, 0], "G2": P[:, 1]}, tags)
         ties = 0
         sh.count("mon:fde-injected-count")
         for j in range(freq.size):
